@@ -18,10 +18,11 @@ Qed.
 Lemma all_from_Z n z p : 0 <= n -> all_from (Z.to_nat n) z p = true -> forall k, z <= k < z + n -> p k = true.
 Proof. intros Hn H k Hk. apply (all_from_spec _ _ _ H). rewrite Z2Nat.id by exact Hn. exact Hk. Qed.
 
+Definition no_semi (t : bytes) : bool := forallb (fun c => negb (ascii_eqb c ";")) t.
 Definition day_ok (d : Z) : bool :=
-  (match day_parse (day_text d) with Some d' => d' =? d | None => false end) && Nat.eqb (length (day_text d)) 16.
+  (match day_parse (day_text d) with Some d' => d' =? d | None => false end) && Nat.eqb (length (day_text d)) 16 && no_semi (day_text d).
 Definition time_ok (r : Z) : bool :=
-  (match time_parse (time_text r) with Some r' => r' =? r | None => false end) && Nat.eqb (length (time_text r)) 18.
+  (match time_parse (time_text r) with Some r' => r' =? r | None => false end) && Nat.eqb (length (time_text r)) 18 && no_semi (time_text r).
 Definition civil_chk (d : Z) (t : Z * Z * Z) : bool :=
   let '(y, m, dd) := t in
   (days_from_civil y m dd =? d) && (1 <=? m) && (m <=? 12) && (1 <=? dd) && (dd <=? last_day y m) && (1678 <=? y) && (y <=? 2261).
